@@ -102,6 +102,13 @@ def case_batches(ctx, tag, big=True):
             ctx.harness_errors.append("gen_rnd_board failed on a random-board job")
         else:
             batch.append(("rnd", c, True))
+    # legal but extreme probabilities (1e-9, 1 - 1e-9, the smallest positive double): they are written as given
+    ext = []
+    for k, b in enumerate(exhaustive_boards(SHAPES_QUICK)):
+        if k % 41 == 5 and b["L"] * b["W"] >= 2:
+            ptb, prb, plb = [(1e-9, 1 - 1e-9, 5e-324), (1 - 1e-12, 1e-300, 1e-9), (2.5e-7, 1 - 2.5e-7, 1e-7)][k % 3]
+            ext.append(("extreme", dict(b, ptb=ptb, prb=prb, plb=plb), True))
+    batch += ext
     if big:
         bj = [([7, 8, 8, 0.3, 6, True], [0.1, 0.1, 0.1]), ([8, 1, 40, 0.5, 3, False], [0.5, 0.29, 0.1]),
               ([9, 40, 1, 0.5, 3, True], [0.29, 0.5, 0.1]),
